@@ -49,7 +49,7 @@ def _sym_layer_choices(ctx: Ctx, c: ClassInfo, tag: str) -> Iterator[tuple[str, 
         if n == "scope":
             cands.append([("", lambda st: ScopeV(DV))])
         elif n == "arity":
-            cands.append([(f"arity={h}", lambda st, h=h: mkint(h)) for h in (1, 2, 3)])
+            cands.append([(f"arity={h}", lambda st, h=h: mkint(h)) for h in r4.arities_of(ctx)])
         elif n.endswith("_factory"):
             cands.append([("", lambda st: NONE)])
         elif "Parameter" in ann:
@@ -127,7 +127,7 @@ def operator_rule_shapes(ctx: Ctx, kinds: set[str]) -> list[Ob]:
 def _one_rule(ctx: Ctx, rule: r2.OpRule, f: FuncInfo, objs: list[ObjV], st: State, tag: str) -> list[Ob]:
     out: list[Ob] = []
     inst = f"shapes[{tag}]" if tag else "shapes"
-    orders = [1, 2] if rule.kind == "DIFFERENTIATION" else [None]
+    orders = list(r4.orders_of(ctx)) if rule.kind == "DIFFERENTIATION" else [None]
     for order in orders:
         it = Interp(ctx.repo)
         it.strict = True
@@ -194,7 +194,7 @@ def param_rule_shapes(ctx: Ctx) -> list[Ob]:
             obs.append(unres("R4p", row.rule.qualname, "shape", "symbolic constructor outside the enumerated forms", row.loc))
             continue
         tname = "Torch" + sc.name
-        ranks = r4.RANK_DOMAIN.get(tname, (1, 2, 3))
+        ranks = r4.RANK_DOMAIN.get(tname, r4.ranks_of(ctx))
         for r in ranks:
             axes: list[int | None] = list(range(r)) + [-1] if "axis" in names else [None]
             for ax in axes:
